@@ -1,5 +1,5 @@
-\* Strain.tla, machine HSpec, kind "map" only: the code AS IT IS (TensorMap.clear_cache keeps eps_sample / eps_crystal /
-\* eps_hydro / eps_devia).  MapAsIsCurrent is EXPECTED TO BE VIOLATED (read, assign a new UBI map, read again);
+\* Strain.tla, machine HSpec, kind "map" only: the code AS IT WAS before fix e29c99a (TensorMap.clear_cache kept
+\* eps_sample / eps_crystal / eps_hydro / eps_devia).  MapAsIsCurrent is EXPECTED TO BE VIOLATED (read, assign a new UBI map, read again);
 \* the counterexample is replayed on a real TensorMap by harness/props/c10.py.
 SPECIFICATION HSpec
 CONSTANTS
@@ -14,6 +14,8 @@ CONSTANTS
   HSTRETCHES <- HStretchQ
   HROTS <- HRotsQ
   HU0R <- HU0RAll
+  HSCALES <- HScalesAll
+  MTOUCHES <- MTouchNone
   HLEN = 2
   PHASEDICTS <- PhaseDictsMapT
   NVER = 2
